@@ -160,6 +160,26 @@ func (fa *funcAn) recordAccess(st lstate, in ssa.Instruction) {
 				fa.access(st, f, b, true, x)
 			}
 		}
+		// a method called on an object held in a field, when the object's type is one that is not safe for
+		// concurrent use (buffers, hashes, writers): an access of the pointee, recorded as pseudo-field "f→"
+		if recv := callReceiver(cc); recv != nil {
+			if ld, ok := recv.(*ssa.UnOp); ok && ld.Op == token.MUL {
+				if fad, ok := ld.X.(*ssa.FieldAddr); ok && unsafePointee(ld.Type()) {
+					if f, b, ok := e.rootField(fad, 0); ok {
+						name := ""
+						if cc.IsInvoke() {
+							name = cc.Method.Name()
+						} else if sc := cc.StaticCallee(); sc != nil {
+							name = sc.Name()
+						}
+						fa.access(st, f+"→", b, !pointeeReadMethods[name], x)
+						for _, al := range e.ptAlias[f+"→"] {
+							fa.access(st, al, b, !pointeeReadMethods[name], x)
+						}
+					}
+				}
+			}
+		}
 	case *ssa.MakeClosure:
 		for _, bnd := range x.Bindings {
 			if f, b, ok := fa.addrOfField(bnd); ok {
@@ -197,8 +217,34 @@ type FieldReport struct {
 // Lockset computes the per-field verdicts (mutex classes only).
 func (e *Engine) Lockset() []FieldReport {
 	mm := e.MutexMask()
+	// shared (read) mode of a read-write mutex: counts as the mutex for reads, as nothing for writes
+	sharedOf := map[int]int{}
+	for i, cl := range e.Classes {
+		if strings.HasSuffix(cl.Name, "#r") {
+			if b, ok := e.classIdx[strings.TrimSuffix(cl.Name, "#r")]; ok {
+				sharedOf[i] = b
+			} else {
+				sharedOf[i] = -1
+			}
+		}
+	}
+	eff := func(a Access) Access {
+		for r, b := range sharedOf {
+			if a.Held&(1<<uint(r)) != 0 {
+				a.Held &^= 1 << uint(r)
+				if !a.Write && b >= 0 {
+					a.Held |= 1 << uint(b)
+				}
+			}
+		}
+		return a
+	}
 	var out []FieldReport
-	for field, m := range e.Accesses {
+	for field, m0 := range e.Accesses {
+		m := map[string]Access{}
+		for k, a := range m0 {
+			m[k] = eff(a)
+		}
 		fr := FieldReport{Field: field}
 		common := ^uint64(0)
 		var post []Access
@@ -255,3 +301,122 @@ func (e *Engine) Lockset() []FieldReport {
 func (e *Engine) FuncsAnalysed() int { return len(e.funcsSeen) }
 
 var _ = strings.Join
+
+// callReceiver returns the receiver value of a method call (nil for plain function calls).
+func callReceiver(cc *ssa.CallCommon) ssa.Value {
+	if cc.IsInvoke() {
+		return cc.Value
+	}
+	if sc := cc.StaticCallee(); sc != nil && sc.Signature.Recv() != nil && len(cc.Args) > 0 {
+		return cc.Args[0]
+	}
+	return nil
+}
+
+// unsafePointee: types whose values are mutated by their methods and are documented as not safe for
+// concurrent use without external locking.
+func unsafePointee(t types.Type) bool {
+	switch an.TypeString(t) {
+	case "*bytes.Buffer", "*strings.Builder", "*bufio.Writer", "*bufio.Reader", "hash.Hash", "io.Writer", "io.Reader",
+		"github.com/opencontainers/go-digest.Digester", "*encoding/json.Encoder", "*encoding/json.Decoder":
+		return true
+	}
+	return false
+}
+
+var pointeeReadMethods = map[string]bool{"Bytes": true, "Len": true, "String": true, "Cap": true, "Available": true,
+	"Digest": true, "Sum": true, "Size": true, "BlockSize": true, "Buffered": true}
+
+// pointeeAliases finds wrappers: a field assigned io.MultiWriter(x.a, x.b.M(), …) writes through to the
+// objects held in the fields a and b of the same struct.
+func (e *Engine) pointeeAliases() {
+	e.ptAlias = map[string][]string{}
+	var fieldOf func(v ssa.Value, d int) (string, bool)
+	fieldOf = func(v ssa.Value, d int) (string, bool) {
+		if d > 4 {
+			return "", false
+		}
+		switch x := v.(type) {
+		case *ssa.UnOp:
+			if x.Op == token.MUL {
+				if fad, ok := x.X.(*ssa.FieldAddr); ok {
+					if f, _, ok := e.rootField(fad, 0); ok {
+						return f + "→", true
+					}
+				}
+			}
+		case *ssa.MakeInterface:
+			return fieldOf(x.X, d+1)
+		case *ssa.ChangeInterface:
+			return fieldOf(x.X, d+1)
+		case *ssa.Call:
+			// a method result of an object held in a field (d.Hash()): writes go to that object
+			// (only the accessor that hands out the object's own state; constructors such as Digester() build new objects)
+			if recv := callReceiver(&x.Call); recv != nil && calleeNameOf(&x.Call) == "Hash" {
+				return fieldOf(recv, d+1)
+			}
+		}
+		return "", false
+	}
+	for _, fn := range e.P.ModFuncs {
+		for _, b := range fn.Blocks {
+			for _, in := range b.Instrs {
+				st, ok := in.(*ssa.Store)
+				if !ok {
+					continue
+				}
+				fad, ok := st.Addr.(*ssa.FieldAddr)
+				if !ok {
+					continue
+				}
+				f, _, ok := e.rootField(fad, 0)
+				if !ok {
+					continue
+				}
+				call, ok := st.Val.(*ssa.Call)
+				if !ok || !an.IsFunc(call, "io", "MultiWriter") || len(call.Call.Args) != 1 {
+					continue
+				}
+				sl, ok := call.Call.Args[0].(*ssa.Slice)
+				if !ok {
+					continue
+				}
+				al, ok := sl.X.(*ssa.Alloc)
+				if !ok || al.Referrers() == nil {
+					continue
+				}
+				for _, r := range *al.Referrers() {
+					ia, ok := r.(*ssa.IndexAddr)
+					if !ok || ia.Referrers() == nil {
+						continue
+					}
+					for _, rr := range *ia.Referrers() {
+						if s2, ok := rr.(*ssa.Store); ok && s2.Addr == ia {
+							if tf, ok := fieldOf(s2.Val, 0); ok && tf != f+"→" {
+								dup := false
+								for _, x := range e.ptAlias[f+"→"] {
+									if x == tf {
+										dup = true
+									}
+								}
+								if !dup {
+									e.ptAlias[f+"→"] = append(e.ptAlias[f+"→"], tf)
+								}
+							}
+						}
+					}
+				}
+			}
+		}
+	}
+}
+
+func calleeNameOf(cc *ssa.CallCommon) string {
+	if cc.IsInvoke() {
+		return cc.Method.Name()
+	}
+	if sc := cc.StaticCallee(); sc != nil {
+		return sc.Name()
+	}
+	return ""
+}
